@@ -3,3 +3,4 @@ import RSVerif.Properties.C16
 #print axioms RS.observed_no_reentrancy
 #print axioms RS.observed_terminates
 #print axioms RS.observed_final_state
+#print axioms RS.source_global_state_is_the_tables
